@@ -22,11 +22,21 @@ REPO="${VERIF_REPO:-/repo}"
 mkdir -p bin .scratch evidence replays
 RACE=""
 case "$PROP" in C11|C19) RACE="-race";; esac
-BIN="bin/vcheck$RACE"
+MODFILE=""
+SUF=""
+if [ "$REPO" != "/repo" ]; then
+  # development aid only (seeded-change experiments on a scratch worktree):
+  # point the replace directive at another checkout through -modfile.
+  SUF="-$(echo "$REPO" | cksum | cut -d' ' -f1)"
+  sed "s#=> /repo#=> $REPO#" go.mod > ".scratch/go$SUF.mod"
+  cp go.sum ".scratch/go$SUF.sum"
+  MODFILE="-modfile=.scratch/go$SUF.mod"
+fi
+BIN="bin/vcheck$RACE$SUF"
 # serialise builds (several checks may be started at once)
 exec 9>.scratch/build.lock
 flock 9
-if ! go build $RACE -tags verif -o "$BIN" ./cmd/vcheck 2>.scratch/build.$$.log; then
+if ! go build $MODFILE $RACE -tags verif -o "$BIN" ./cmd/vcheck 2>.scratch/build.$$.log; then
   cat .scratch/build.$$.log >&2; rm -f .scratch/build.$$.log
   echo "BUILD FAILED (harness or $REPO does not compile with -tags verif)" >&2
   exit 2
@@ -34,13 +44,13 @@ fi
 rm -f .scratch/build.$$.log
 case "$PROP" in
   C10|C11|C14|C15|C16|C17|C18|C19|C20)
-    if ! (cd "$REPO" && go build $RACE -tags verif -o "$VERIF_ROOT/bin/gedcom$RACE" ./cmd/gedcom) 2>.scratch/buildcli.$$.log; then
+    if ! (cd "$REPO" && go build $RACE -tags verif -o "$VERIF_ROOT/bin/gedcom$RACE$SUF" ./cmd/gedcom) 2>.scratch/buildcli.$$.log; then
       cat .scratch/buildcli.$$.log >&2; rm -f .scratch/buildcli.$$.log
       echo "BUILD FAILED (gedcom CLI)" >&2
       exit 2
     fi
     rm -f .scratch/buildcli.$$.log
-    export VERIF_GEDCOM_BIN="$VERIF_ROOT/bin/gedcom$RACE"
+    export VERIF_GEDCOM_BIN="$VERIF_ROOT/bin/gedcom$RACE$SUF"
     ;;
 esac
 flock -u 9
